@@ -284,6 +284,89 @@ impl CapBound {
     }
 }
 
+/// Real-time order oracle for C09 under threads. A send takes effect during its first poll
+/// (or the try_send call); a receive takes its value during the poll that returns it. If the
+/// first poll of send A returned before the first poll of send B was invoked, A precedes B in
+/// the channel; so B must not be received by a poll that returned before the poll that
+/// received A was even invoked.
+#[derive(Default)]
+struct Order {
+    seq: AtomicU64,
+    /// per message id: (first-poll inv, first-poll ret) of its send
+    sends: StdMutex<Vec<(usize, u64, u64)>>,
+    /// per message id: (inv, ret) of the receive operation that yielded it
+    recvs: StdMutex<Vec<(usize, u64, u64)>>,
+}
+impl Order {
+    fn stamp(&self) -> u64 {
+        self.seq.fetch_add(1, SeqCst)
+    }
+    fn check(&self) {
+        let sends = self.sends.lock().unwrap();
+        let recvs = self.recvs.lock().unwrap();
+        for (a, _, a_ret) in sends.iter() {
+            for (b, b_inv, _) in sends.iter() {
+                if a == b || !(a_ret < b_inv) {
+                    continue;
+                }
+                // A took effect strictly before B
+                let ra = recvs.iter().find(|(m, _, _)| m == a);
+                let rb = recvs.iter().find(|(m, _, _)| m == b);
+                if let (Some((_, ra_inv, _)), Some((_, _, rb_ret))) = (ra, rb) {
+                    if rb_ret < ra_inv {
+                        violation("C09", "fifo-order", format!("message #{} was sent (first poll returned at {}) before message #{} was even started ({}), yet #{} was received by an operation that returned ({}) before the receive of #{} was invoked ({})", a, a_ret, b, b_inv, b, rb_ret, a, ra_inv));
+                    }
+                }
+            }
+        }
+    }
+}
+
+/// stamps the first poll of a send future
+struct StampedSend<F> {
+    fut: F,
+    order: Arc<Order>,
+    msg: usize,
+    first: bool,
+}
+impl<F: Future> Future for StampedSend<F> {
+    type Output = F::Output;
+    fn poll(self: Pin<&mut Self>, cx: &mut Context<'_>) -> Poll<F::Output> {
+        let this = unsafe { self.get_unchecked_mut() };
+        let fut = unsafe { Pin::new_unchecked(&mut this.fut) };
+        if this.first {
+            this.first = false;
+            let inv = this.order.stamp();
+            let r = fut.poll(cx);
+            let ret = this.order.stamp();
+            this.order.sends.lock().unwrap().push((this.msg, inv, ret));
+            r
+        } else {
+            fut.poll(cx)
+        }
+    }
+}
+
+/// stamps the poll of a receive future that yields a message
+struct StampedRecv<F> {
+    fut: F,
+    order: Arc<Order>,
+}
+impl<F: Future<Output = Option<Msg>>> Future for StampedRecv<F> {
+    type Output = Option<Msg>;
+    fn poll(self: Pin<&mut Self>, cx: &mut Context<'_>) -> Poll<Option<Msg>> {
+        let this = unsafe { self.get_unchecked_mut() };
+        let fut = unsafe { Pin::new_unchecked(&mut this.fut) };
+        let inv = this.order.stamp();
+        let r = fut.poll(cx);
+        if let Poll::Ready(Some(m)) = &r {
+            let ret = this.order.stamp();
+            this.order.recvs.lock().unwrap().push((m.id, inv, ret));
+        }
+        r
+    }
+}
+
 fn consume(led: &Led, who: usize, last: &mut Vec<i64>, m: Msg) {
     led.lock().unwrap().received[m.id] += 1;
     let p = m.producer as usize;
@@ -323,27 +406,31 @@ fn t_chan(cfg: &Cfg) {
     let led: Led = Arc::new(StdMutex::new(Ledger::default()));
     let live = Arc::new(AtomicUsize::new(np));
     let bound = Arc::new(CapBound::default());
+    let order = Arc::new(Order::default());
     let mut hs = Vec::new();
     for p in 0..np {
-        let (chan, led, live, bound) = (chan.clone(), led.clone(), live.clone(), bound.clone());
+        let (chan, led, live, bound, order) = (chan.clone(), led.clone(), live.clone(), bound.clone(), order.clone());
         hs.push(thread::spawn(move || {
             for s in 0..items {
                 let m = Msg::new(&led, p as u32, s as u32);
                 let id = m.id;
                 if cap > 0 && draw(100) < 25 {
+                    let inv = order.stamp();
                     match chan.try_send(m) {
                         Ok(()) => {
+                            let ret = order.stamp();
+                            order.sends.lock().unwrap().push((id, inv, ret));
                             bound.send_ok(cap);
                             led.lock().unwrap().sent_ok[id] = true
                         }
                         Err(e) => {
-                            if block_on(chan.send(e.into_inner())).is_ok() {
+                            if block_on(StampedSend { fut: chan.send(e.into_inner()), order: order.clone(), msg: id, first: true }).is_ok() {
                                 bound.send_ok(cap);
                                 led.lock().unwrap().sent_ok[id] = true;
                             }
                         }
                     }
-                } else if block_on(chan.send(m)).is_ok() {
+                } else if block_on(StampedSend { fut: chan.send(m), order: order.clone(), msg: id, first: true }).is_ok() {
                     bound.send_ok(cap);
                     led.lock().unwrap().sent_ok[id] = true;
                 }
@@ -355,7 +442,7 @@ fn t_chan(cfg: &Cfg) {
         }));
     }
     for c in 0..nc {
-        let (chan, led, bound) = (chan.clone(), led.clone(), bound.clone());
+        let (chan, led, bound, order) = (chan.clone(), led.clone(), bound.clone(), order.clone());
         hs.push(thread::spawn(move || {
             let mut last: Vec<i64> = Vec::new();
             let mut abandons = 3;
@@ -364,7 +451,7 @@ fn t_chan(cfg: &Cfg) {
                 bound.recv_start();
                 let got = match budget {
                     // a consumer that abandons a pending receive (finitely often)
-                    Some(b) => match block_on(budgeted(chan.receive(), b)) {
+                    Some(b) => match block_on(budgeted(StampedRecv { fut: chan.receive(), order: order.clone() }, b)) {
                         Some(v) => v,
                         None => {
                             abandons -= 1;
@@ -373,15 +460,20 @@ fn t_chan(cfg: &Cfg) {
                     },
                     None => {
                         if draw(100) < 15 {
+                            let inv = order.stamp();
                             match chan.try_receive() {
-                                Ok(m) => Some(m),
+                                Ok(m) => {
+                                    let ret = order.stamp();
+                                    order.recvs.lock().unwrap().push((m.id, inv, ret));
+                                    Some(m)
+                                }
                                 Err(_) => {
                                     thread::yield_now();
-                                    block_on(chan.receive())
+                                    block_on(StampedRecv { fut: chan.receive(), order: order.clone() })
                                 }
                             }
                         } else {
-                            block_on(chan.receive())
+                            block_on(StampedRecv { fut: chan.receive(), order: order.clone() })
                         }
                     }
                 };
@@ -398,6 +490,7 @@ fn t_chan(cfg: &Cfg) {
     queues_must_be_empty("mpmc channel", chan.verif_snapshot(&mut |_| false));
     drop(chan);
     ledger_final(&led);
+    order.check();
 }
 
 fn cfg_chan(rng: &mut Rng) -> Cfg {
@@ -423,9 +516,10 @@ fn t_chan_shared(cfg: &Cfg) {
     let led: Led = Arc::new(StdMutex::new(Ledger::default()));
     let producers_done = Arc::new(AtomicUsize::new(0));
     let bound = Arc::new(CapBound::default());
+    let order = Arc::new(Order::default());
     let mut hs = Vec::new();
     for p in 0..np {
-        let (tx, led, done, bound) = (tx.clone(), led.clone(), producers_done.clone(), bound.clone());
+        let (tx, led, done, bound, order) = (tx.clone(), led.clone(), producers_done.clone(), bound.clone(), order.clone());
         hs.push(thread::spawn(move || {
             // handle churn: clone and drop racing with the other threads
             let tx = if draw(2) == 0 {
@@ -438,7 +532,7 @@ fn t_chan_shared(cfg: &Cfg) {
             for s in 0..items {
                 let m = Msg::new(&led, p as u32, s as u32);
                 let id = m.id;
-                match block_on(tx.send(m)) {
+                match block_on(StampedSend { fut: tx.send(m), order: order.clone(), msg: id, first: true }) {
                     Ok(()) => {
                         bound.send_ok(cap);
                         led.lock().unwrap().sent_ok[id] = true
@@ -454,7 +548,7 @@ fn t_chan_shared(cfg: &Cfg) {
     drop(tx);
     let mut chs = Vec::new();
     for c in 0..nc {
-        let (rx, led, bound) = (rx.clone(), led.clone(), bound.clone());
+        let (rx, led, bound, order) = (rx.clone(), led.clone(), bound.clone(), order.clone());
         chs.push(thread::spawn(move || {
             let rx = if draw(2) == 0 {
                 let r2 = rx.clone();
@@ -469,14 +563,14 @@ fn t_chan_shared(cfg: &Cfg) {
                 let budget = if abandons > 0 && draw(100) < p_budget { Some(draw(4) as u32) } else { None };
                 bound.recv_start();
                 let got = match budget {
-                    Some(b) => match block_on(budgeted(rx.receive(), b)) {
+                    Some(b) => match block_on(budgeted(StampedRecv { fut: rx.receive(), order: order.clone() }, b)) {
                         Some(v) => v,
                         None => {
                             abandons -= 1;
                             continue;
                         }
                     },
-                    None => block_on(rx.receive()),
+                    None => block_on(StampedRecv { fut: rx.receive(), order: order.clone() }),
                 };
                 match got {
                     Some(m) => consume(&led, c, &mut last, m),
@@ -506,6 +600,7 @@ fn t_chan_shared(cfg: &Cfg) {
     queues_must_be_empty("shared mpmc channel", snap);
     drop(obs);
     ledger_final(&led);
+    order.check();
 }
 
 // ================================================================ T-event (linearizability against the event model)
